@@ -16,7 +16,7 @@ RULE = ("every history up to the depth bound over sync/unsync (mutual, "
         "followed an unsync/collection; distinct = distinct (state, event)")
 EXPLANATION = ("direct exploration; reference model = the directed link "
                "graph with transitive propagation")
-BOUNDS = {"quick": "depth 3 over ~75 events with dedup", "thorough":
+BOUNDS = {"quick": "depth 3 over ~100 events with dedup (reduced menu at the last level)", "thorough":
           "depth 4"}
 ASSUMPTIONS = ["Dict/Set items are documented as not synchronised",
                "3 objects"]
